@@ -147,6 +147,31 @@ class Harmonic(Case):
         return out
 
 
+class HarmonicRef(Harmonic):
+    """lighter variant for the highest l in the quick tier: matrix == independent construction (which is proved
+    harmonic / orthonormal / correctly phased for every l in the thorough tier), left = right^T, default orders"""
+
+    def code(self, I, mk):
+        out = Harmonic.code(self, I, mk) if False else None
+        from gbasis.contractions import GeneralizedContractionShell
+
+        l = self.params["l"]
+        sh = GeneralizedContractionShell.__new__(GeneralizedContractionShell)
+        sh._angmom = l
+        cart = [tuple(int(v) for v in t) for t in sh.angmom_components_cart]
+        labels = list(sh.angmom_components_sph)
+        T = np.asarray(_T(mk, l, cart, labels, "left")).view(np.ndarray)
+        Tr = np.asarray(_T(mk, l, cart, labels, "right")).view(np.ndarray)
+        return {"T": T, "right_T": Tr.T,
+                "order": np.array([1 if labels == H.default_sph_labels(l) else 0], dtype=object),
+                "cart_order": np.array([1 if cart == G.comps(l) else 0], dtype=object)}
+
+    def ref(self, I, ops, mk):
+        l = self.params["l"]
+        R = np.array(H.transformation(ops, l, G.comps(l), H.default_sph_labels(l)), dtype=object)
+        return {"T": R, "right_T": R, "order": np.array([1], dtype=object), "cart_order": np.array([1], dtype=object)}
+
+
 def _monomials(n):
     return [(a, b, n - a - b) for a in range(n + 1) for b in range(n + 1 - a)]
 
@@ -251,6 +276,9 @@ def cases(tier, seed=0):
     lmax = 6 if tier == "quick" else 10
     for l in range(lmax + 1):
         out.append(Harmonic(l=l))
+    if tier == "quick":
+        for l in range(lmax + 1, 11):
+            out.append(HarmonicRef(l=l))
     # every permutation of the Cartesian order for l <= 1 (quick) / l <= 2 (thorough: 720), label order fixed
     for l in (1,) if tier == "quick" else (1, 2):
         n = len(G.comps(l))
@@ -299,7 +327,7 @@ def main(tier="quick", seed=0, only=None):
     cs = cm.parse_only(cases(tier, seed), only)
     extra = None
     bounds = {
-        "l": "every l = 0..6 (quick) / 0..10 (thorough), every m: harmonicity (all Laplacian coefficients), orthonormality (full "
+        "l": "quick additionally: matrix == independent construction for l = 7..10; every l = 0..6 (quick) / 0..10 (thorough), every m: harmonicity (all Laplacian coefficients), orthonormality (full "
              "T S T^T), phase identity and positivity, equality with an independent construction, left = right^T, default order",
         "conventions": "every permutation of the Cartesian order for l = 1 (quick) and l = 2 (thorough, 720); every order/sign pattern of "
                        "the labels for l = 1 (48) and 1/8 of the 3840 patterns for l = 2 (thorough); transpositions and seed-chosen permutations for l up to 4 / 7",
